@@ -23,6 +23,9 @@ pub struct QuicClient {
     /// connection level ops: open_bi {ops, spawn}, send_datagram {data}, sleep, wait, set, close
     #[serde(default)]
     pub ops: Vec<Op>,
+    /// datagram_receive_buffer_size of this endpoint = the max_datagram_frame_size it advertises (0 = quinn's default)
+    #[serde(default)]
+    pub dgram_buf: usize,
 }
 
 #[derive(Deserialize, Clone, Debug)]
@@ -44,6 +47,9 @@ pub struct QuicServer {
     /// echo every QUIC datagram back (after swapping nothing): used for datagram-channel tests
     #[serde(default)]
     pub echo_datagrams: bool,
+    /// datagram_receive_buffer_size of this endpoint = the max_datagram_frame_size it advertises (0 = quinn's default)
+    #[serde(default)]
+    pub dgram_buf: usize,
 }
 
 pin_project_lite::pin_project! {
@@ -71,8 +77,11 @@ impl tokio::io::AsyncWrite for BiStream {
     }
 }
 
-fn transport() -> quinn::TransportConfig {
+fn transport(dgram_buf: usize) -> quinn::TransportConfig {
     let mut t = quinn::TransportConfig::default();
+    if dgram_buf > 0 {
+        t.datagram_receive_buffer_size(Some(dgram_buf));
+    }
     t.max_concurrent_uni_streams(0u8.into());
     // same idle policy as the repository's own QUIC endpoints
     t.max_idle_timeout(Some(std::time::Duration::from_secs(3600).try_into().unwrap()));
@@ -103,7 +112,7 @@ pub async fn run_client(_idx: usize, c: QuicClient, sh: Arc<Shared>) {
         }
     };
     let mut ccfg = quinn::ClientConfig::new(Arc::new(crypto));
-    ccfg.transport_config(Arc::new(transport()));
+    ccfg.transport_config(Arc::new(transport(c.dgram_buf)));
     let sock = match sim::udp_bind_at(bind) {
         Ok(s) => s,
         Err(e) => {
@@ -225,7 +234,7 @@ pub async fn run_server(_idx: usize, s: QuicServer, sh: Arc<Shared>) {
         }
     };
     let mut scfg = quinn::ServerConfig::with_crypto(Arc::new(crypto));
-    scfg.transport = Arc::new(transport());
+    scfg.transport = Arc::new(transport(s.dgram_buf));
     let sock = match sim::udp_bind_at(bind) {
         Ok(s) => s,
         Err(e) => {
